@@ -24,6 +24,7 @@ EXPLANATION = (
     " R14.11: the language of rope's string-literal body pattern equals the tokenizer's, lookaheads included (exact, derivative engine sa/rederiv.py).  R14.12: the scanners feeding the bracket counters match all six bracket characters.  R14.13: in the logical-line scanner '#' and brackets act only on CFG paths where the in-string state was tested off."
     ' R14.14 (=R06.9): returned text comes from the raw source.  R14.15: blank lines are skipped only between logical lines, never while one is open.'
 )
+EXPLANATION += ' R14.16(c): after leaving an f-string the scan still looks the position up in the next one.'
 EXPLANATION += " R14.17: identifier characters are the interpreter's.  R14.18: an escaped token is skipped one character at a time where the token pattern has multi-character alternatives."
 EXPLANATION += ' R14.16: a whole-text bracket scan over the simplified text (where f-strings survive) reads the string regions; the backward bracket searches of the word finder step over strings through a quote-testing method.'
 ASSUMPTIONS = ["tokenize's own Comment pattern and _all_string_prefixes() are the oracle for the token language"]
@@ -644,6 +645,37 @@ def fstring_aware_bracket_rule(ctx, res, rule: str = "R14.16") -> None:
                         f"{short} scans the simplified text with `{ast.unparse(c)[:60]}` (pattern {pat!r} matches brackets) and never consults the string regions: "
                         "f-strings are not blanked in that text, so a bracket in the literal part of one -- f\"(\" -- is paired with the code's brackets, and the "
                         "lines or the expression after it are attributed to the wrong bracket", function=f.qualname, pattern=pat)
+    # (c) two f-strings can follow each other with nothing in between (`f"{a}" f"{b}"`, `print(f"{a}", f"{b}")` has only a comma):
+    # the match that makes the scan LEAVE one f-string can lie inside the next.  After the statement that ends the current
+    # f-string (`<end> = None` in the loop), the lookup "is this position inside an f-string" (`<end> = <region>[..]`) is still
+    # reachable in the same round of the loop.
+    n_c = 0
+    for f in sorted(idx.functions.values(), key=lambda f: f.qualname):
+        if f.unit.modname != "rope.base.simplify" or isinstance(f.node, ast.Lambda):
+            continue
+        derived = _region_derived(idx, f)
+        if not derived:
+            continue
+        cfg = CFG(f.node)
+        loops = [x.id for x in cfg.nodes if x.kind == "loop"]
+        looked_up = {}
+        for nd in cfg.nodes:
+            st = nd.ast
+            if nd.kind == "stmt" and isinstance(st, ast.Assign) and len(st.targets) == 1 and isinstance(st.targets[0], ast.Name) \
+                    and any(isinstance(y, ast.Name) and y.id in derived for y in ast.walk(st.value)) and any(isinstance(y, ast.Subscript) for y in ast.walk(st.value)):
+                looked_up.setdefault(st.targets[0].id, []).append(nd)
+        for var, lookups in looked_up.items():
+            resets = [nd for nd in cfg.nodes if nd.kind == "stmt" and isinstance(nd.ast, ast.Assign) and any(isinstance(t, ast.Name) and t.id == var for t in nd.ast.targets)
+                      and isinstance(nd.ast.value, ast.Constant) and nd.ast.value.value is None and cfg.loop_guards(nd.id)]
+            for r in resets:
+                n_c += 1
+                ok = any(l.id in cfg.reachable(r.id, avoid_nodes=loops) for l in lookups)
+                short = f.qualname.split(".", 2)[-1]
+                res.add(rule, f"{short}|next-f-string-looked-up-after-leaving-one#{n_c}", ok, f"{f.unit.rel}:{r.lineno}",
+                        "after leaving an f-string the scan still asks whether the position lies in the next one" if ok else
+                        f"after `{ast.unparse(r.ast)}` (the scan has left an f-string) the round ends without asking whether the same position lies inside the NEXT f-string: "
+                        "in `print(f\"{a}\", f\"{b}\")` the first brace of the second f-string is counted as a bracket of the code, the saved depth is one too high "
+                        "from then on, and every line break to the end of the file is blanked", function=f.qualname)
     # (b) backward searches of the word finder
     rf = idx.need_class("rope.base.worder._RealFinder")
 
